@@ -187,6 +187,17 @@ Proof.
   - rewrite feasible_set_now. apply FE_feasible; auto.
 Qed.
 
+(* the same for the other clauses that follow from FE *)
+Theorem reachS_mach_hold_past fuel x0 joker0 ta r m :
+  clock_b x0 = true -> fresh_b i x0 = true -> reachS fuel x0 joker0 ta r m ->
+  mach_hold_b (r_x r) = true /\ (r_offers r <> [] -> past_b (r_x r) = true).
+Proof.
+  intros C Fr H. apply NO_iff_clock_b in C.
+  destruct (reachS_inv _ _ _ _ _ _ C (fresh_FE i _ Fr) H) as [xq [Nq [Fq [E|[E0 [z E]]]]]]; rewrite E.
+  - split; [apply FE_mach_hold with (i := i); auto|intros _; apply FE_past with (i := i); auto].
+  - split; [change (mach_hold_b (set_now xq z)) with (mach_hold_b xq); apply FE_mach_hold with (i := i); auto|congruence].
+Qed.
+
 (* ... and every micro-state of the next agent decision *)
 Theorem reachS_micro_feasible fuel x0 joker0 ta r m a r' m' lg :
   clock_b x0 = true -> fresh_b i x0 = true -> reachS fuel x0 joker0 ta r m ->
